@@ -65,7 +65,7 @@ def rows_views(d, rng):
 def check_C13():
     q = tier() == "quick"
     sizes = {"int": 40, "float": 40, "string": 50, "any": 30} if q else {"int": 250, "float": 200, "string": 300, "any": None}
-    return run_direct_property("C13", None, sizes, 0, False, rows_fn=rows_views,
+    return run_direct_property("C13", None, sizes, 0, False, rows_fn=rows_views, cfg_override={"float": "MC_ValueFloat_c12.cfg"},
                                evidence_extra={"observers": "into_inner, AsRef, Deref, Borrow (String and str), Into, Clone, IntoIterator (by value and by reference), "
                                                "Display under several format specs, address identity of the borrowed views; ==, partial_cmp, cmp, Hash (SipHash and FNV) "
                                                "on pairs of obtained values next to the inner values' answers"})
@@ -197,3 +197,49 @@ def check_C10():
     return run_direct_property("C10", None, sizes, 0, False, rows_fn=rows_ser,
                                evidence_extra={"formats": "json, ron, msgpack (compact and named): bytes of the newtype next to bytes of the inner value (json, msgpack) or of a serde-derived "
                                                "newtype of the same name (ron); round trip of every obtained value whose inner value itself round-trips in the format"})
+
+
+# ------------------------------------------------------------------ C12
+
+def rows_c12(d, rng):
+    q = tier() == "quick"
+    ins = _vals(d, rng, 60 if q else 600)
+    rows = CV.rows_direct(d, rng, 0, eps=None, with_default=True)
+    for r in rows:
+        if r["ep"] != "default":
+            r["ins"] = ins
+    texts = ["NaN", "nan", "-NaN", "inf", "-inf", "+inf", "infinity", "-infinity", "1e400", "-1e400", "1e39", "-0", "0", "5.5", "-5.5", "1e-400", "abc", ""]
+    rows.append({"d": d["id"], "ep": "parse", "ins": [[ord(c) for c in t] for t in texts]})
+    if "Deserialize" in d["traits"]:
+        dins = []
+        for fmt in ("ron", "msgpack", "msgpack_named", "json"):
+            for pos in ("top", "vec", "field"):
+                for v in ins[::4]:
+                    dins.append({"fmt": fmt, "pos": pos, "val": v})
+        for t in ("Nt(NaN)", "(inf)", "Nt(-inf)", "(NaN)", "Nt(1e400)", "Nt(-0.0)", "Nt(5.5)"):
+            dins.append({"fmt": "ron", "pos": "top", "raw": {"text": t}})
+        for h in ("ca7fc00000", "ca7f800000", "caff800000", "cb7ff8000000000000", "cb7ff0000000000000", "cbfff0000000000000", "ca7fc00001", "cb7ff0000000000001"):
+            dins.append({"fmt": "msgpack", "pos": "top", "raw": {"hex": h}})
+            dins.append({"fmt": "msgpack", "pos": "vec", "raw": {"hex": "91" + h}})
+        rows.append({"d": d["id"], "ep": "deser", "ins": dins})
+    if "Ord" in d["traits"]:
+        pool = ins if len(ins) <= 24 else rng.sample(ins, 24)
+        rows.append({"d": d["id"], "ep": "cmp", "ins": [[a, b] for a in pool for b in pool] + [[ins[i], ins[i + 1]] for i in range(len(ins) - 1)]})
+        sorts = [ins, list(reversed(ins))]
+        for _ in range(6 if q else 60):
+            k = rng.randint(0, min(40, len(ins)))
+            sorts.append([rng.choice(ins) for _ in range(k)])
+        rows.append({"d": d["id"], "ep": "sort", "ins": sorts})
+    rows.append({"d": d["id"], "ep": "canon", "ins": ins[::2]})
+    return rows
+
+
+def check_C12():
+    q = tier() == "quick"
+    sizes = {"float": 90} if q else {"float": 600}
+    return run_direct_property("C12", None, sizes, 0, True, rows_fn=rows_c12, fams=("float",), mc_suffix="c12",
+                               extra_must=lambda ad: any(t == "Ord" for t in ad["traits"]) and len(ad["val"]) <= 2,
+                               evidence_extra={"slice": "f32/f64 declarations with finite (+ optional bounds, every order) deriving PartialEq, Eq, PartialOrd, Ord; "
+                                               "every entry point (constructor, TryFrom, FromStr, Deserialize in RON/MessagePack carrying NaN/inf, Default with a NaN default) "
+                                               "on NaN payloads, +-inf, +-0.0, subnormals, extremes; cmp/partial_cmp/== on pair grids validated against the rank order; "
+                                               "slice::sort, BTreeSet and max under catch_unwind"})
